@@ -96,6 +96,11 @@ CHECKS = {
         technique="TLA+ spec Ordering.tla: order laws checked by TLC on the small domain; one implementation test per spec case (every pair, cross pair, vector pair) evaluated on Score, Error, TestResult, TestResults, EcIndividual; construction clause trace-validated",
         text="Reflexivity, antisymmetry, transitivity, totality, exact reversal for errors, operator-family coherence, cross-kind incomparability and 'vectors and individuals compare as their totals' are checked by TLC on values -2..2 / vectors <= 2/3; every case is evaluated with every comparison operator on the real types with values mapped onto {MIN,-1,0,1,MAX}; IndividualGenerator and GenomeScorer are traced with a recording genome maker and scorer.",
         note="Vector sums use small values (overflow of iter().sum() is outside the property)."),
+    "C19": dict(
+        cat="model_checking", ref="DESIGN.md §4 C19",
+        technique="TLA+ spec Builder.tla with the builder's type-state as explicit state (Legal = the type-level guard of each generated method, Apply = its run-time effect); TLC over all call sequences <= 5/6 with the property's clauses as invariants, and the type-state legality table under a VIEW; Rust programs GENERATED from TLC's sequences: well-typed ones compiled and run on PushState and on a second struct, ill-typed ones must be rejected by rustc",
+        text="TLC explores every builder call sequence of up to 5 (thorough 6) calls and checks contents-as-supplied (first value on top, repeated loads stack up), maximum = last set, program order, inputs by name, overflow reported at the overflowing call, build impossible without sizes + program decision + step limit, and no resize after values; a stratified sample of those sequences (all short ones) is turned into Rust, compiled and run against the real generated builder of PushState and of AltState (different number / order / naming of stacks, renamed methods, newtype-twin stacks, accessors cross-checked against fields); for every reachable type-state x call kind the legality table becomes one generated function that must compile iff the specification says the call is legal.",
+        note="Generated-test approach (model-based test generation) rather than model checking of rustc. AltState is a cfg-guarded hook inside the push crate because the macro's HasStack impls fail coherence in external crates (recorded in DESIGN as an observation)."),
 }
 
 PENDING = {}
@@ -128,9 +133,9 @@ def main():
         "setup_cmd": "cd /verif/harness && CARGO_NET_OFFLINE=true cargo build --offline --bin vh --bin vh-erased",
         "hooks": {
             "guard": "unhindered_ec_verif",
-            "enable": "RUSTFLAGS --cfg unhindered_ec_verif (set in /verif/harness/.cargo/config.toml); no hook commits exist: all observation goes through the public API and harness-supplied probe types",
+            "enable": "rustflags --cfg unhindered_ec_verif in /verif/harness/.cargo/config.toml and /verif/harness-gen/.cargo/config.toml; the only hook is a second #[push_state(builder)] struct (push::push_vm::verif_alt_state) used by C19; every other observation goes through the public API and harness-supplied probe types",
             "baseline_off_cmd": "cd /repo && cargo test --workspace --no-fail-fast --offline",
-            "source_commits": [],
+            "source_commits": ["64d4a14"],
             "add_only": True,
         },
         "engines": [{
